@@ -46,7 +46,8 @@ impl Story {
     /// Continues running the story code for the specified number of
     /// milliseconds.
     pub fn continue_async(&mut self, millisecs_limit_async: f32) -> Result<(), StoryError> {
-        if !self.has_validated_externals {
+        // Only validate when the call is going to run: a continue that is refused changes nothing
+        if !self.has_validated_externals && (self.async_continue_active || self.can_continue()) {
             self.validate_external_bindings()?;
         }
 
